@@ -235,6 +235,15 @@ class Names(Sub):
                 want = T.fields(dt) if "HH" in fmt else T.fields(dt)[:3] + (0, 0, 0, 0)
                 req(T.fields(r) == want, f"localized names do not round-trip in locale {loc}", fmt=fmt, string=s, got=r.isoformat(), expected=dt.isoformat())
                 n += 1
+                # the same through the process-wide default locale (set_locale), switched from case to case
+                pendulum.set_locale(loc)
+                try:
+                    s2 = dt.format(fmt)
+                    req(s2 == s, f"format() under set_locale({loc!r}) differs from format(locale={loc!r})", got=s2, expected=s)
+                    r2 = pendulum.from_format(s2, fmt)
+                    req(T.fields(r2) == want, f"from_format under set_locale({loc!r}) does not round-trip", fmt=fmt, string=s2, got=r2.isoformat())
+                finally:
+                    pendulum.set_locale("en")
         ctx.cache["n"] = ctx.cache.get("n", 0) + n
         ctx.cache["evidence_extra"] = {"inner_evaluations": ctx.cache["n"], "inner_nontrivial": ctx.cache["n"]}
         return False, loc
